@@ -328,6 +328,7 @@ def main():
     chk.rule = ('case i = f(VERIF_SEED, i): body (corpus document without its metadata, or generated sentinel document) x metadata block {none, control keys only, 1-5 '
                 'arbitrary keys with reserved-character values, mixed, YAML-fenced} x {html, latex, beamer, memoir} x option variants; five relations evaluated per case '
                 '(7-12 conversions); non-trivial = body longer than 40 bytes; distinct = distinct (source, format, options)')
+    chk.rule = chk.rule + ' ; plus: fenced blocks of control keys, bodies that substitute metadata values as variables, the decision on a reused engine, and texts without metadata whose early key-like line must stay body'
     chk.assumptions = ['rendering-control keys: base/html/xhtml/latex/epub/odf header level, language, quotes language, latex mode (as process_metadata_stack and the docs list them)',
                        'bodies contain no [%var] or {{transclusion}} other than those the relation itself adds']
     chunk = max(20, n // 64)
